@@ -39,13 +39,17 @@ class Checker:
         self.plain = rows_plain
         self.src = conv.mk_rows(rows_plain)
         self.spans = ref.layout(rows_plain)
-        mine = Scaffold("s", self.src)
+        # the scaffold is built from a work list that its caller re-uses afterwards
+        work = list(self.src)
+        mine = Scaffold("s", work)
         scaffolds = [mine]
         if renamed_with:
             other = Scaffold("t", conv.mk_rows(renamed_with))
             scaffolds.append(other)
         self.asm = IndexedAssembly("a", scaffolds=scaffolds)
         self.replaced = False
+        work.clear()
+        work.append(Gap(12345, "scaffold"))
         if renamed_with:
             # the scaffold objects are renamed after indexing (the remapper renames scaffolds by size)
             mine.name, other.name = "t", "s"
@@ -170,6 +174,13 @@ def apply_op(r, op):
         e = opts[op[1] % len(opts)]
         must(r.trim_large_overhangs, e, what=f"trim_large_overhangs({e})")
         return "trim_large", False
+    if kind == "ts":
+        # the result is turned into a Scaffold which is then extended (as the remapper does when it joins pieces);
+        # the OverlapResult itself must be unaffected
+        sc = must(r.to_scaffold, what="to_scaffold")
+        sc.append_scaffold(Scaffold("more", [Fragment("zz", 1, 77, 1)]), Gap(200, "scaffold"))
+        sc.add_row(Gap(5, "scaffold"))
+        return "to_scaffold", True
     if kind == "tf":
         row = r.rows[0] if op[1] == "first" else r.rows[-1]
         minus = row.strand != 1
@@ -212,7 +223,7 @@ def body(case, rec):
 
 
 op_strategy = st.one_of(
-    st.sampled_from([["ds"], ["de"]]),
+    st.sampled_from([["ds"], ["de"], ["ts"]]),
     st.tuples(st.just("tlo"), st.integers(0, 30)).map(list),
     st.tuples(st.just("tf"), st.sampled_from(["first", "last"]), st.booleans(), st.booleans()).map(list),
 )
